@@ -982,11 +982,13 @@ SCALE_SHAPES = {
     "quick": ["ring:1000", "ring:100000", "ring:300000", "chords:100000", "wheel:5000", "wheel:60000", "clique:300",
               "ring+held:50000", "chords+held:50000", "wheel+held:20000", "clique+held:200",
               "ring+near:50000", "chords+near:50000", "wheel+near:20000", "ring+near:20",
-              "wheel+same:20000", "clique+same:200", "chords+same:50000", "wheel+same:150"],
+              "wheel+same:20000", "clique+same:200", "chords+same:50000", "wheel+same:150",
+              "chain:3000", "chain2ring:5000"],
     "thorough": ["ring:1000", "ring:300000", "ring:1000000", "chords:500000", "wheel:5000", "wheel:60000", "wheel:200000",
                  "clique:300", "clique:1000", "ring+held:300000", "chords+held:300000", "wheel+held:100000", "clique+held:700",
                  "ring+near:300000", "chords+near:300000", "wheel+near:100000", "ring+near:20", "ring+near:100",
-                 "wheel+same:100000", "clique+same:700", "chords+same:300000", "wheel+same:150", "wheel+same:1000"],
+                 "wheel+same:100000", "clique+same:700", "chords+same:300000", "wheel+same:150", "wheel+same:1000",
+                 "chain:3000", "chain:10000", "chain2ring:5000", "chain2ring:30000"],
 }
 
 
@@ -998,7 +1000,8 @@ def run_scale(binp, wd, tier, prop="C15"):
     lines = []
     for shape in SCALE_SHAPES[tier]:
         one = os.path.join(wd, "scale_one.ndjson")
-        rc, out, dt = harness(binp, ["scale", one, "128", shape], timeout=1800)
+        # (acyclic chains are destroyed recursively by Rust itself: they get a large stack)
+        rc, out, dt = harness(binp, ["scale", one, "65536" if shape.startswith("chain") else "128", shape], timeout=1800)
         got = [json.loads(l) for l in open(one)] if os.path.exists(one) else []
         if rc != 0 and not any(g["k"] == "scale" for g in got):
             shp, n = shape.split(":")
